@@ -565,12 +565,19 @@ func init() {
 		section{"readonly", tiered(400, 10000), c16ReadOnly},
 		section{"sign", tiered(300, 6000), c16Sign},
 		section{"concurrent", tiered(300, 6000), c16Concurrent},
+		concurrentSectionAs("C01", "C16", tiered(3, 60)),
+		concurrentSectionAs("C02", "C16", tiered(3, 60)),
+		concurrentSectionAs("C03", "C16", tiered(3, 60)),
+		concurrentSectionAs("C05", "C16", tiered(3, 60)),
+		concurrentSectionAs("C09", "C16", tiered(3, 60)),
+		concurrentSectionAs("C17", "C16", tiered(3, 60)),
+		concurrentSectionAs("C20", "C16", tiered(3, 60)),
 	)
 	core.Register(&core.Monitor{
 		ID: "C16", Level: "exploration", Plan: plan, Run: run, Race: true,
 		Rule: "every registry type (struct-built and decoder-built) incl. every EDNS0 option and SVCB parameter kind, and whole messages; oracle = object-graph walker: address ranges of every slice backing array, pointer target and map " +
 			"reachable from copy vs original (and from a decoded message vs the input buffer incl. string data, plus overwrite-and-compare); deep snapshot before/after Pack, PackBuffer, Len, String, Copy, IsDuplicate (also on program-built values: 16-octet IPv4 addresses, APL prefixes with host bits set, SVCB parameters and mandatory key lists not in key order, records and EDNS0 options with fields set by hand incl. values that cannot be packed), RRSIG.Sign/Verify (incl. wildcard-expanded owners); " +
-			"the same operations concurrently on a shared message under the Go race detector; non-trivial = distinct record/message with at least one reachable mutable range",
+			"the same operations concurrently on a shared message under the Go race detector; the pure operations of C01/C02/C03/C05/C09/C17/C20 (decode, measure, pack, name helpers, String and parse, Truncate, KeyTag/ToDS/HashName, IsDuplicate/Dedup) on independent inputs from 8 goroutines under the race detector, results compared with the serial ones; non-trivial = distinct record/message with at least one reachable mutable range",
 		Assumptions: []string{"strings are immutable and exempt from the copy check", "Rdlength and the OPT extended-RCODE bits are documented bookkeeping"},
 		MinObserved: []string{"msg_copies", "unpack_alias_checks", "readonly_ops", "signed", "verified", "wildcard_expansions", "concurrent_rounds"},
 		CaseTimeout: 0,
